@@ -24,7 +24,7 @@ REACH = {'sdf.DelayFile': ('sdf.py', 37, 136), 'sdf.transformer': ('sdf.py', 143
 
 def plan(tier, seed):
     q = tier == 'quick'
-    return [{'n': 40 if q else 800} for _ in range(16)]
+    return [{'n': 60 if q else 2500} for _ in range(16)]
 
 
 def conclude(agg):
